@@ -23,6 +23,23 @@ cat > ../.build/overlay.json <<EOJ
 }}
 EOJ
 go build -tags verif -overlay ../.build/overlay.json -o ../.build/verif ./cmd/verif
+# second driver binary for C16: additionally every `range <map>` of the
+# repository is rewritten (tools/maprange) to go through verifmap.Order
+(cd ../tools/maprange && go build -o ../../.build/maprange .)
+rm -rf ../.build/mapr
+../.build/maprange /repo/go "$(cd .. && pwd)/.build/mapr" > ../.build/maprange.log
+python3 - "$EXPDIR" "$OV" <<'EOP'
+import json,sys,os
+expdir,ov=sys.argv[1],sys.argv[2]
+build=os.path.abspath(os.path.join(os.getcwd(),'..','.build'))
+m=json.load(open(os.path.join(build,'mapr','overlay.json')))['Replace']
+m[expdir+'/expect.go']=ov+'/expect.go'
+m[expdir+'/codes.go']=ov+'/empty.go'
+m[expdir+'/codes_string.go']=ov+'/empty.go'
+m['/repo/go/pkg/verifmap/order.go']=os.path.join(os.getcwd(),'overlay','verifmap','order.go')
+json.dump({'Replace':m},open(os.path.join(build,'overlay-map.json'),'w'),indent=1)
+EOP
+go build -tags "verif verifmap" -overlay ../.build/overlay-map.json -o ../.build/verif-map ./cmd/verif
 # the repository's own binaries (used by process-level checks), built
 # without any overlay
 if [ "$1" = "all" ]; then
